@@ -45,8 +45,11 @@ def generate(run_seed, tier):
             if out.cls != "ok":
                 raise out.exc
 
-        g = W.Generator(rw, ref_compute, families=fams, knob_space=W.knob_space_default(), max_ops=6 if tier == "quick" else 8,
+        g = W.Generator(rw, ref_compute, families=fams + ["partitions", "headtail"], knob_space=W.knob_space_default(), max_ops=6 if tier == "quick" else 8,
                         pool_knobs=True, knob_prob=0.4)
+        if rw.random() < 0.3:
+            # a source that reads external mutable state: lets the session re-persist after "somebody rewrote the file"
+            g.source_kinds = ("from_map_epoch",)
         recipe = g.generate(n_targets=1)
         if recipe is None or not recipe["targets"]:
             return None
@@ -62,6 +65,18 @@ def generate(run_seed, tier):
         # generator exclusions (known findings, each re-checked by its own probe):
         #  KF-C17-reduction-divisions: a frame reduction reports known divisions before lowering and unknown ones after
         inter = [i for i in inter if by_id[i]["op"] != "reduce"]
+        # a cut separates head from tail: the remaining operations may reach the head only through the cut member
+        # (a tail that also uses an ancestor of the cut directly mixes re-imported and original lineage, which
+        # legitimately changes how the two sides are aligned)
+        def separates(i):
+            head = W.cone(recipe, [i])
+            for op in recipe["ops"]:
+                if op["id"] in head:
+                    continue
+                if any(s_ in head and s_ != i for s_ in W.op_srcs(op)):
+                    return False
+            return True
+        inter = [i for i in inter if separates(i)]
         if not inter:
             return None
         has_delayed_src = any(op["op"] == "from_delayed" for op in recipe["ops"])
@@ -81,6 +96,7 @@ def generate(run_seed, tier):
             if k == "delayed":
                 cut["with_meta"] = rc.random() < 0.8
                 cut["optimize_graph"] = rc.random() < 0.8
+                cut["prefix"] = rc.choice([None, None, "reimp"])
             cuts.append(cut)
         return {"property": PROPERTY, "recipe": recipe, "cuts": cuts, "worlds": [S.World.draw(rs).to_json() for _ in range(2)]}
     finally:
@@ -108,6 +124,8 @@ def _reimport(coll, cut, ses):
         kw = {"divisions": coll.divisions} if coll.known_divisions else {}
         if cut.get("with_meta", True):
             kw["meta"] = coll._meta
+        if cut.get("prefix"):
+            kw["prefix"] = cut["prefix"]
         return dx.from_delayed(parts, **kw)
     if k == "legacy":
         return dx.from_legacy_dataframe(coll.to_legacy_dataframe())
@@ -199,6 +217,34 @@ def _execute(spec, ses):
                     return _done(_v("reimported_partition_mutated", sig0, got.detail, cut=ci), ses, counters, spec)
                 else:
                     return _done(_v("cut_breaks_compute", sig0 + ":" + (exc_signature(got.exc) if got.exc else got.cls), "cut at member %d (%s): %s" % (at, by_id[at]["op"], got.detail), cut=ci), ses, counters, spec)
+    # ---- re-persist after the external source changed: the second snapshot must show the new data
+    if any(op["op"] == "from_map_epoch" for op in recipe["ops"]) and spec["cuts"]:
+        cut = dict(spec["cuts"][0], kind="persist", fuse=True, world=S.REFERENCE_WORLD)
+        at = cut["at"]
+        try:
+            W.EPOCH = 0
+            pool0 = W.build(recipe, use_knobs=True)
+            p0 = _reimport(pool0[at], cut, ses)  # kept alive on purpose
+            W.EPOCH = 1
+            pool1 = W.build(recipe, use_knobs=True)
+            uncut1 = ses.compute(pool1[t], refw, monitor=False, det=d)
+            p1 = _reimport(pool1[at], cut, ses)
+            tail1 = W.build(recipe, use_knobs=True, override={at: p1})[t]
+            got1 = ses.compute(tail1, refw, monitor=False, det=d)
+            counters["repersists"] = counters.get("repersists", 0) + 1
+            if uncut1.cls == "ok" and got1.cls == "ok":
+                eq, why = obs_equal(uncut1.obs, got1.obs)
+                if not eq:
+                    return _done(_v("stale_repersist", "persist:" + by_id[at]["op"], "persisting the same query again after its source changed "
+                                    "still answers from the first snapshot: " + why), ses, counters, spec)
+            elif uncut1.cls == "ok" and got1.cls not in ("refusal",):
+                return _done(_v("cut_breaks_compute", "repersist:" + (exc_signature(got1.exc) if got1.exc else got1.cls), got1.detail), ses, counters, spec)
+            del p0
+        except Exception as e:
+            if classify(e) != "refusal":
+                return _done(_v("cut_failed", "repersist:" + exc_signature(e), exc_detail(e)), ses, counters, spec)
+        finally:
+            W.EPOCH = 0
     return _done({"verdict": "ok", "nontrivial": nontrivial}, ses, counters, spec)
 
 
